@@ -5,7 +5,11 @@ Evaluate a seeded change: (1) in a scratch worktree of /repo: apply, full test s
 The scratch worktree and its build output are removed at the end."""
 import sys, os, subprocess, json, shutil, time, re
 mdir, sid, checks = sys.argv[1], sys.argv[2], sys.argv[3].split(',')
-tier = sys.argv[5] if len(sys.argv) > 5 and sys.argv[4] == '--tier' else 'quick'
+tier = 'quick'
+demo_cmd = 'cargo test --offline --test demo'
+for i, a_ in enumerate(sys.argv):
+    if a_ == '--tier': tier = sys.argv[i + 1]
+    if a_ == '--demo-features': demo_cmd = f'cargo +nightly test --offline --features {sys.argv[i + 1]} --test demo'
 VERIF = os.path.dirname(os.path.dirname(os.path.abspath(__file__)))
 wt = f'/tmp/wt/eval-{sid}'
 def sh(cmd, cwd=None, env=None, timeout=3600):
@@ -23,7 +27,8 @@ try:
     res = re.findall(r'(\d+) passed; (\d+) failed', out)
     meta['suite_with_change'] = res; meta['suite_green'] = bool(res) and all(f == '0' for _, f in res) and sum(int(p) for p, _ in res) >= 927
     shutil.copy(os.path.join(mdir, 'demo.rs'), wt + '/jmespath/tests/demo.rs')
-    rc, out = sh('cargo test --offline --test demo 2>&1 | tail -5', cwd=wt + '/jmespath', env=env)
+    rc, out = sh(demo_cmd + ' 2>&1 | tail -5', cwd=wt + '/jmespath', env=env)
+    meta['demo_cmd'] = demo_cmd
     meta['demo_fails_with_change'] = 'FAILED' in out or 'failed' in out
     # checks against the changed tree
     for c in checks:
@@ -38,7 +43,7 @@ try:
         meta['checks'][c] = {'exit': rc, 'violations': vio[:6], 'detail': detail, 'inconclusive': inc, 'wall_s': round(time.time() - t0, 1), 'last': out.strip().split('\n')[-1][:300]}
     shutil.copy(os.path.join(mdir, 'demo.rs'), wt + '/jmespath/tests/demo.rs')
     sh('git checkout -- .', cwd=wt)
-    rc, out = sh('cargo test --offline --test demo 2>&1 | tail -5', cwd=wt + '/jmespath', env=env)
+    rc, out = sh(demo_cmd + ' 2>&1 | tail -5', cwd=wt + '/jmespath', env=env)
     meta['demo_passes_without_change'] = 'test result: ok' in out
 finally:
     sh(f'git -C /repo worktree remove --force {wt}'); shutil.rmtree(wt, ignore_errors=True)
